@@ -38,7 +38,8 @@ pub fn check(cx: &Cx, rep: &mut Report) {
                 if af.has_timers {
                     rep.premise("C05.R2.with_live_timers");
                 }
-                match (af.task_end, af.t_final()) {
+                let settled = ix.phase("settled").unwrap_or(u64::MAX);
+                match (af.task_end.filter(|e| e.0 < settled), af.t_final()) {
                     (Some((_, _, "done")), Some((t_in, Some(_)))) => {
                         // accepted before the last drop => handled
                         for m in ix.ops.iter().filter(|o| o.tag == af.tag && matches!(o.op, OpK::Send | OpK::ForceSend) && matches!(o.res, Some(Res::Ok))) {
